@@ -1207,9 +1207,34 @@ package quic
 // forged first Initial may therefore have planted a wrong source connection ID. Whatever was recorded, the first packet
 // that passes AEAD authentication (this function is only reached after unpacking succeeded) makes the peer's connection ID
 // the one in ITS header — on the client (the server may pick a new ID) and on the server alike; later packets never change it.
+// dropEncryptionLevel: whatever level is dropped — 0-RTT on rejection included — BOTH packet handlers forget that number
+// space first (a rejected 0-RTT packet left in the sent-packet history would later be declared lost and its data
+// retransmitted in 1-RTT packets: C13 "never if rejected").
+//@ iface (h ackhandler.SentPacketHandler) DropPackets
+//@   modifies everything
+//@ iface (h quic.cryptoStreamHandler) DiscardInitialKeys
+//@   modifies everything
+//@ iface (f flowcontrol.ConnectionFlowController) Reset
+//@   modifies everything
+//@ func (m *streamsMap) ResetFor0RTT
+//@   trusted closes and re-creates the four stream maps (mutex, error fan-out): examined only as a callee
+//@   modifies everything
+//@ func (f *framer) Handle0RTTRejection
+//@   trusted drops queued 0-RTT control and stream frames: examined only as a callee
+//@   modifies everything
+//@ func (m *cryptoStreamManager) Drop
+//@   trusted finishes the crypto stream of the dropped level: examined only as a callee
+//@   modifies everything
 //@ func (c *Conn) dropEncryptionLevel
-//@   trusted drops one packet number space in both handlers, the crypto stream and the keys; touches none of the connection-ID fields
+//@   trusted frame only (used by callers): drops one packet number space in both handlers, the crypto stream and the keys; touches none of the connection-ID fields. What it calls is checked by the #impl contract below
 //@   modifies c.droppedInitialKeys
+//@ func (c *Conn) dropEncryptionLevel#impl
+//@   props C13
+//@   requires c.sentPacketHandler != nil && c.receivedPacketHandler != nil && c.cryptoStreamHandler != nil && c.streamsMap != nil && c.connFlowController != nil && c.cryptoStreamManager != nil && (encLevel == 1 || encLevel == 2 || encLevel == 3)
+//@   ensures [both-handlers-forget-the-space] called("(ackhandler.SentPacketHandler).DropPackets") == 1 && called("(*ReceivedPacketHandler).DropPackets") == 1
+//@   ensures [rejected-0rtt-resets-streams-and-credit] called("(*streamsMap).ResetFor0RTT") == ite(encLevel == 3, 1, 0) && called("(*framer).Handle0RTTRejection") == ite(encLevel == 3, 1, 0) && called("(flowcontrol.ConnectionFlowController).Reset") == ite(encLevel == 3, 1, 0)
+//@   ensures [initial-keys-discarded-with-the-initial-space] called("(quic.cryptoStreamHandler).DiscardInitialKeys") == ite(encLevel == 1, 1, 0)
+//@   modifies everything
 //@ func startedConnectionEvent
 //@   trusted qlog only
 //@   modifies nothing
